@@ -16,7 +16,7 @@ PROPS = {
         suites=[80],
         design_ref="DESIGN.md section 5, C08",
         rule=("suite 80: complete in-order Block2 transfers: the generator plays the client against the implementation (requests recorded, then replayed on implementation and model): every body length 0..3*sz+1 for block sizes 16, 32, 64 (thorough: all of 16..1024) at the budget that picks that size, "
-              "boundary lengths for the larger sizes, the same with early negotiation (Block2 in the first request), bodies of 5000 and 20000 bytes, and 500 (thorough 20000) random transfers over body lengths, budgets 60..1280, client preference none / szx 0..6, mid-transfer size reduction, token length 0..8, four application option sets; "
+              "boundary lengths for the larger sizes, the same with early negotiation (Block2 in the first request), bodies of 5000 and 20000 bytes, and 500 (thorough 20000) random transfers over body lengths, budgets 60..1280, client preference none / szx 0..6, mid-transfer size reduction, token length 0..8, seven application option sets (incl. repeatable options with byte-identical values, empty values, option numbers on both sides of Block2 and above 268; the budget is raised to the option set's overhead + 28 so that every case stays inside the property's domain); "
               "verdict from the responses alone: payloads concatenate to the body, non-final blocks are full with the more flag, numbers match offsets, every block repeats the application's options, the application ran exactly once, follow-ups were answered by the handler, the cache entry is gone after the final block; class 1 empty body / 2 unfragmented / 3 fragmented / 4 fragmented with early negotiation; distinct = distinct input"),
         level_text=("Theorems: C08_block_served (for every body incl. the empty one, block number and size: the served payload is bytes [num*size, num*size+size) of the cached body, the more flag is set iff bytes remain, on a copy of the application's version/type/code/options), "
                     "C08_chunks_reassemble / _from (for every body and block size the chunks taken in order concatenate to the body: induction on the remaining length), C08_followup_from_cache (a follow-up block is answered from the cache without consulting the application and the entry is released exactly when the served block is the last), "
@@ -39,8 +39,8 @@ PROPS = {
     "C10": dict(
         suites=[100],
         design_ref="DESIGN.md section 5, C10",
-        rule=("suite 100: 2500 (thorough 60000) first exchanges and short transfers with the budget aimed at bands around overhead + 12 + 2^k, overhead + 28 .. +35, 1277..1280 and random values; overhead varied through token length 0..8, path length 0..100, Uri-Query options and four application option sets; client szx 0..7 or none; uploads with szx 0..6; "
-              "verdict: inside the property's domain (overhead + 28 <= M <= 1280, no Block2 set by the application) every handler-produced message encodes within M, every chosen size is a power of two in 16..1024 and not above the client's; outside only 'no panic'; class 1 in / 2 outside the domain; distinct = distinct input"),
+        rule=("suite 100: 2500 (thorough 60000) first exchanges and short transfers with the budget aimed at bands around overhead + 12 + 2^k, overhead + 28 .. +35, 1277..1280 and random values; overhead varied through token length 0..8, path length 0..100, Uri-Query options and four application option sets; client szx 0..7 or none; uploads with szx 0..6; 400 (thorough 6000) uploads whose final block also names a Block2 size for a large reply; "
+              "verdict: inside the property's domain (overhead + 28 <= M <= 1280, no Block2 set by the application) every handler-produced message encodes within M, every chosen size is a power of two in 16..1024, not above the client's, and exactly the client's when the message overhead + that size + 32 fits the budget; outside only 'no panic'; class 1 in / 2 outside the domain; distinct = distinct input"),
         level_text=("Theorem C10_chosen_size: for every budget with overhead + 28 <= M <= 1280, whenever negotiate returns a block it has size 2^(k+4), k <= 6, at most M - overhead - 12 (room for the block plus the 12-byte block-option allowance), never above the client's size, and exactly the client's when that fits with 32 bytes to spare. C10_overhead_measured (the size the handler measures is the RFC wire length), C10_insertion (inserting one option with number <= 268 and a value of <= 12 bytes into any ascending option sequence "
                     "lengthens the wire image by at most 2 + its length: the successor's delta only shrinks), C10_fragment_fits (for every well-formed application response without Block2 and every budget in the domain, the first fragment the handler builds -- options + Block2 + marker + chunk -- has wire length <= M and payload <= the chosen size)."),
         level_note=COMMON_BLOCK_NOTE + " C10_fragment_fits is proved for the first fragment of a response (intercept_response); follow-up fragments from the cache and Block1 answers are decided by the suite's length oracle on every produced message.",
@@ -71,7 +71,7 @@ PROPS = {
         suites=[200],
         design_ref="DESIGN.md section 5, C20",
         rule=("suite 200: retention: expiry of one hour, a Block2 transfer or an upload started, then 1, 7, 150 (thorough up to 2000) requests for other keys, then the follow-up: it must be served from the cache / continue on its buffer; expiry: duration 40 ms, 1 or 12 (thorough up to 50) abandoned uploads plus a started transfer, an idle wait of 200 ms, then the follow-up: "
-              "it must reach the application / start from an empty buffer, and only the new entry may remain in the cache (live-clone count of the endpoint type); under the short duration only the exchange after the wait is observed, so scheduling delays cannot raise an alarm; class 1 retention / 2 expiry; distinct = distinct input"),
+              "it must reach the application / start from an empty buffer, and only the new entry may remain in the cache (live-clone count of the endpoint type); also after the wait a plain request without block options on a new key (ordinary traffic must reclaim expired state too); under the short duration only the exchange after the wait is observed, so scheduling delays cannot raise an alarm; per-key expiry under traffic: duration 300 ms, the judged key left idle across four naps of 100 ms while two other keys send Block1 blocks (or plain requests) after every nap, then the follow-up, which must be handled as fresh (only that exchange is observed, without the entry count, so a nap that takes longer cannot raise an alarm); class 1 retention / 2 expiry / 3 per-key expiry under traffic; distinct = distinct input"),
         level_text=("Theorems on the expiring-map model with time as a parameter: C20_state_handed (a use of key k is handed the stored state while not expired and the default state afterwards), C20_retained_across_other_keys (any number of uses of other keys never changes what k will see), "
                     "C20_retained_until_expiry (exact boundary: seen up to and including last use + ttl, never after), C20_reclaimed (after any use every entry physically present has t + ttl >= now) with C20_time_order_invariant and C20_keys_unique as the invariants it needs."),
         level_note=COMMON_BLOCK_NOTE + " The real clock (Instant monotonicity, sleep granularity) and lru_time_cache's internal consistency between its map and its list are assumed; the model merges them into one time-ordered list.",
